@@ -1,5 +1,63 @@
-"""Driver for the native generator (library code from /repo's current tree produces the
-artefacts that V/W harnesses decide statements about).  Filled in per property."""
+"""Driver for the native generator: library code from /repo's current tree produces the
+artefacts (scripts, types, figures, lifted policies, witness tables, compiled policies ...)
+that the V/W harnesses decide statements about."""
+import json, os, subprocess, time
+
+VERIF = os.path.dirname(os.path.dirname(os.path.abspath(__file__)))
+HARNESS = os.path.join(VERIF, "harness")
+GEN_TARGET = os.path.join(VERIF, ".target", "gen")
+OUT = os.path.join(HARNESS, "src", "generated")
+
+SHAPE_PROPS = {"C01", "C02", "C03", "C06", "C07", "C09", "C17"}
+OWN = {"C08": "c08", "C12": "c12", "C18": "c18"}
+
+
+def build_gen(run):
+    env = dict(os.environ, CARGO_NET_OFFLINE="true", RUSTFLAGS="--cfg miniscript_verif", CARGO_TARGET_DIR=GEN_TARGET, MSVERIF_NO_GENERATED="1")
+    rc, out, dt = run(["cargo", "build", "--offline", "--bin", "gen", "--release"], env=env, logf=os.path.join(VERIF, "logs", "gen_build.log"))
+    if rc != 0:
+        errs = [l for l in out.splitlines() if l.startswith("error")][:10]
+        return "generator does not build against the current tree: " + " | ".join(errs)
+    return None
+
+
+def run_gen(what, tier, seed, run):
+    rc, out, dt = run([os.path.join(GEN_TARGET, "release", "gen"), what, tier, str(seed), OUT], logf=os.path.join(VERIF, "logs", "gen_%s.log" % what))
+    if rc != 0:
+        return None, "generator %s failed (rc=%d): %s" % (what, rc, out[-800:])
+    return out, None
+
 
 def generate(prop, tier, seed, run, log):
-    return {}
+    whats = []
+    if prop is None:
+        whats = ["shapes"] + sorted(set(OWN.values()))
+    else:
+        if prop in SHAPE_PROPS:
+            whats.append("shapes")
+        if prop in OWN:
+            whats.append(OWN[prop])
+    if not whats:
+        return {}
+    t0 = time.time()
+    err = build_gen(run)
+    if err:
+        return {"error": err}
+    info = {}
+    for w in whats:
+        out, err = run_gen(w, tier, seed, run)
+        if err:
+            return {"error": err}
+        p = os.path.join(OUT, "%s_info.json" % w)
+        if os.path.exists(p):
+            try:
+                d = json.load(open(p))
+            except Exception as e:
+                return {"error": "bad info json from generator %s: %s" % (w, e)}
+            if prop is None or w != "shapes" or prop in SHAPE_PROPS:
+                for k, v in d.items():
+                    info[k] = v
+    info["generator"] = {"cmd": "gen %s %s %d" % (" ".join(whats), tier, seed), "wall_s": round(time.time() - t0, 1),
+                         "note": "native run of /repo's current tree (cfg miniscript_verif); produces the constants the harnesses decide statements about"}
+    log("generator: %s in %.0fs" % (",".join(whats), time.time() - t0))
+    return info
